@@ -8,17 +8,24 @@ contract(
     requires=['ref_arity(reference) >= 2', 'ref_arity(reference) <= 6'],
     ensures=[
         ('reference_kept', 'result["reference"] is reference'),
+        # C02: one ordered child name per child entry of the reference, in the entries' order
+        ('one_name_per_entry', 'implies(ref_kind(reference) == "sequence" or ref_kind(reference) == "choice", '
+                               'dhas(result, "ordered_children") and list_len(result["ordered_children"]) == n_children(reference))'),
+        ('leaf_has_no_children_map', 'implies(not (ref_kind(reference) == "sequence" or ref_kind(reference) == "choice"), '
+                                     'not dhas(result, "ordered_children") and not dhas(result, "structure_by_name"))'),
     ],
     raises={'KeyError': {}},      # a child entry whose kind the element class does not list in child_classes
     raises_only=['KeyError'],
     modifies=[],
     allocates=True,
     loops={0: {'header': 'for c in children',
-               'inv': [('data_ref', 'data["reference"] is reference')],
+               'inv': [('data_ref', 'data["reference"] is reference'),
+                       ('data_keys', 'not dhas(data, "ordered_children") and not dhas(data, "structure_by_name")'),
+                       ('one_name_per_entry_so_far', 'len(ordered_children) == _i')],
                'modifies': ['structure{}', 'structure_by_longname{}', 'repetitions{}', 'counters{}', 'ordered_children[]'],
                'allocates': True}},
     local_types={'data': 'dict[any]', 'ordered_children': 'list[str]', 'structure': 'dict[any]', 'structure_by_longname': 'dict[any]', 'repetitions': 'dict[any]'},
-    properties=['C18', 'C17'],
+    properties=['C18', 'C17', 'C02', 'C14'],
 )
 
 # the structure tables of a version, reached through importlib: an external dependency (assumed contract)
@@ -128,3 +135,50 @@ for _attr, (_ty, _op) in sorted(PLAIN_ATTRS.items()):
                    if _attr == 'children' and _cls == 'Element' else {}),
             properties=['C17', 'C18'],
         )
+
+# ---- ElementList.create_element: the child is built by `cls(element_name, **kwargs)` with cls read from the reference
+# entry.  ASSUMED (dynamic call): whatever Element subclass cls is, its constructor behaves like Element.__init__ on the
+# keyword arguments it is given (each subclass __init__ forwards them to Element.__init__, which is proved above; the
+# forwarding itself is the ground AST pass astpass:c17_forwarding).
+_ATTACH_EXC = ('ChildNotValid', 'ChildNotFound', 'MaxChildLimitReached', 'OperationNotAllowed')
+contract(
+    'hl7apy.core:Element[constructed]',
+    sig={'self': 'Element', 'name': 'str?', 'reference': 'any', 'validation_level': 'int?', 'version': 'str?',
+         'parent': 'Element?', 'traversal_parent': 'Element?'},
+    returns='none',
+    ensures=[
+        ('version_threaded', 'implies(version is not None, self.version == version)'),
+        ('level_threaded', 'implies(validation_level is not None, self.validation_level == validation_level)'),
+        ('reference_threaded', 'implies(reference is not None and name is not None, self.reference == reference)'),
+        ('linked', 'self._parent is parent and self._traversal_parent is (traversal_parent if parent is None else None)'),
+    ],
+    raises=dict([(n, {}) for n in _ATTACH_EXC + ('UnknownValidationLevel', 'UnsupportedVersion', 'InvalidName', 'KeyError')]),
+    modifies=None,
+    allocates=True,
+    interface=True, verify=False,
+    notes='assumed for the dynamic constructor call in create_element; Element.__init__ (proved) is the common base',
+)
+
+contract(
+    'hl7apy.core:ElementList.create_element',
+    sig={'self': 'ElementList', 'name': 'str', 'traversal_parent': 'bool', 'reference': 'dict[any]?'},
+    returns='Element',
+    requires=['implies(reference is not None, dhas(reference, "cls") and dhas(reference, "name") and dhas(reference, "ref") and '
+              'isstr(dget(reference, "name")))'],
+    ensures=[
+        # C17 / C18: the child works with its parent's version and validation level and with the reference of the entry
+        ('version_inherited', 'result.version == old(self.element.version)'),
+        ('level_inherited', 'result.validation_level == old(self.element.validation_level)'),
+        ('entry_reference_used', 'implies(reference is not None and old(dget(reference, "ref")) is not None, '
+                                 'result.reference == old(dget(reference, "ref")))'),
+        ('linked', 'implies(not traversal_parent, result._parent is old(self.element)) and '
+                   'implies(traversal_parent, result._parent is None and result._traversal_parent is old(self.element))'),
+    ],
+    raises=dict([('ChildNotFound', {})] + [(n, {}) for n in _ATTACH_EXC[:1] + _ATTACH_EXC[2:] +
+                                          ('UnknownValidationLevel', 'UnsupportedVersion', 'InvalidName', 'KeyError')]),
+    modifies=None,
+    allocates=True,
+    dynamic_calls={'cls': {'contract': 'hl7apy.core:Element[constructed]', 'new': 'Element'}},
+    properties=['C17', 'C18'],
+    notes='frame not claimed (the attach step is C09/C10 territory); the constructor call is dynamic (assumed contract)',
+)
